@@ -26,6 +26,9 @@ func dispatchMore(mode string, lines []string) bool {
 	case "decomp":
 		runDecomp(lines)
 		return true
+	case "schemas":
+		runSchemas(lines)
+		return true
 	case "attmem":
 		runAttMem(lines)
 		runSeqMem(lines)
